@@ -126,3 +126,21 @@ extern "C" void h_deep_nesting(void) {
    print_and_check(lx, [&](Printer& pp) { pp << xpr_stmt(*body); }, true);
    vp_done();
 }
+// constructs the printer supports must complete, not be reported as unsupported: named user-defined types (class, union, enum, namespace)
+// in operand position (callee, member selection, comparison), as statement and as declaration; a built-in and a pointer type likewise
+extern "C" void h_supported(void) {
+   zoo::World* w = new zoo::World; auto& lx = w->lx; w->concrete = true;
+   unsigned kind = vp_pick(6), role = vp_pick(5);
+   impl::Class* c = lx.make_class(*w->reg); c->id = w->I[0]; impl::Union* u = lx.make_union(*w->reg); u->id = w->I[0];
+   impl::Enum* e = lx.make_enum(*w->reg, ipr::Enum::Kind::Scoped); e->id = w->I[0]; impl::Namespace* ns = lx.make_namespace(*w->reg); ns->id = w->I[0];
+   const ipr::Expr* ty[6] = { c, u, e, ns, &lx.int_type(), &lx.get_pointer(lx.char_type()) };
+   const ipr::Expr& t = *ty[kind]; const ipr::Expr& x = *lx.make_id_expr(*w->I[1]);
+   impl::Expr_list* args = lx.make_expr_list(); args->push_back(w->E[1]);
+   const ipr::Expr* what = role == 0 ? static_cast<const ipr::Expr*>(lx.make_call(t, *args)) : role == 1 ? static_cast<const ipr::Expr*>(lx.make_dot(x, t))
+                         : role == 2 ? static_cast<const ipr::Expr*>(lx.make_equal(t, t)) : &t;
+   std::ostringstream& os = *new std::ostringstream; Printer pp { lx, os };
+   int out = vp_outcome([&] { if (role == 3) pp << xpr_stmt(*what); else if (role == 4) pp << xpr_decl(*what); else pp << xpr_expr(*what); });
+   vp_assert(out == 0, 20);                                       // completes
+   vp_assert(vp_stream_ctrl(&os) == 0 && vp_stream_size(&os) > 0 && pp.indent() == 0, 21);
+   vp_done();
+}
